@@ -988,10 +988,19 @@ pub fn run_collect(prop: &dyn Prop, tier: Tier) -> (Evidence, i32) {
                                 }
                                 Verdict::Skip => st.skipped += 1,
                                 Verdict::Bad(reason) => {
-                                    // shrink input/script against the same lexer
-                                    let shrunk = shrink_case(base.clone(), |c| {
-                                        comp.affordable(c) && matches!(eval_group(&mut server, &mut comp, c).3, Verdict::Bad(_))
-                                    });
+                                    // shrink input/script against the same lexer (long inputs: only
+                                    // for the first dozen violating definitions of the run — each
+                                    // attempt lexes the whole candidate, and one defect often breaks
+                                    // hundreds of definitions)
+                                    static LONG_SHRINKS: std::sync::atomic::AtomicUsize = std::sync::atomic::AtomicUsize::new(0);
+                                    let do_shrink = base.input.len() < 5_000 || LONG_SHRINKS.fetch_add(1, std::sync::atomic::Ordering::Relaxed) < 12;
+                                    let shrunk = if do_shrink {
+                                        shrink_case(base.clone(), |c| {
+                                            comp.affordable(c) && matches!(eval_group(&mut server, &mut comp, c).3, Verdict::Bad(_))
+                                        })
+                                    } else {
+                                        base.clone()
+                                    };
                                     let (vars2, models2, outs2, v2) = eval_group(&mut server, &mut comp, &shrunk);
                                     let reason2 = match v2 {
                                         Verdict::Bad(r) => r,
